@@ -2,6 +2,7 @@ package schema
 
 import (
 	"fmt"
+	"google.golang.org/protobuf/encoding/protowire"
 
 	cosmos_proto "github.com/cosmos/cosmos-proto"
 	"google.golang.org/protobuf/proto"
@@ -34,7 +35,7 @@ func MX() []*descriptorpb.FileDescriptorProto {
 	other.Rep("ol", 5, S(Sint64))
 
 	// --- second file of package mx
-	f2 := NewFile("mx/mx2.proto", "mx", GenRoot+"mx", "mxo/other.proto")
+	f2 := NewFile("mx/mx2.proto", "mx", GenRoot+"mx", "mxo/other.proto", "google/protobuf/descriptor.proto")
 	color := f2.Enum("Color", "COLOR_ZERO", 0, "RED", 1, "BLUE", 5, "NEGATIVE", -3)
 	// numbers 0..2 without holes but declared out of number order; an enum with aliases
 	dense := f2.Enum("Dense", "DENSE_ZERO", 0, "DENSE_TWO", 2, "DENSE_ONE", 1)
@@ -46,6 +47,47 @@ func MX() []*descriptorpb.FileDescriptorProto {
 	sec := f2.Msg("Sec")
 	sec.Field("z", 1, S(Sint32))
 	sec.Rep("zs", 2, S(Sint64))
+
+	// extension fields (custom options): two extendees in non-contiguous blocks, a message-typed and a repeated one, one
+	// declared inside a message; used in this file's own options and in mx.proto's
+	ext := func(name string, num int32, ty descriptorpb.FieldDescriptorProto_Type, typeName, extendee string, rep bool) *descriptorpb.FieldDescriptorProto {
+		e := &descriptorpb.FieldDescriptorProto{Name: proto.String(name), Number: proto.Int32(num), Type: ty.Enum(), Extendee: proto.String(extendee),
+			Label: descriptorpb.FieldDescriptorProto_LABEL_OPTIONAL.Enum(), JsonName: proto.String(JSONName(name))}
+		if rep {
+			e.Label = descriptorpb.FieldDescriptorProto_LABEL_REPEATED.Enum()
+		}
+		if typeName != "" {
+			e.TypeName = proto.String(typeName)
+		}
+		return e
+	}
+	const msgOpts, fldOpts, enumOpts = ".google.protobuf.MessageOptions", ".google.protobuf.FieldOptions", ".google.protobuf.EnumOptions"
+	f2.P.Extension = append(f2.P.Extension,
+		ext("m_a", 51001, descriptorpb.FieldDescriptorProto_TYPE_STRING, "", msgOpts, false),
+		ext("f_a", 51002, descriptorpb.FieldDescriptorProto_TYPE_INT32, "", fldOpts, false),
+		ext("m_b", 51003, descriptorpb.FieldDescriptorProto_TYPE_STRING, "", msgOpts, false),
+		ext("m_sec", 51004, descriptorpb.FieldDescriptorProto_TYPE_MESSAGE, sec.Full(), msgOpts, false),
+		ext("f_b", 51005, descriptorpb.FieldDescriptorProto_TYPE_SINT64, "", fldOpts, true),
+		ext("e_a", 51006, descriptorpb.FieldDescriptorProto_TYPE_BOOL, "", enumOpts, false),
+		ext("m_c", 51007, descriptorpb.FieldDescriptorProto_TYPE_ENUM, color, msgOpts, false))
+	sec.P.Extension = append(sec.P.Extension, ext("n_a", 51008, descriptorpb.FieldDescriptorProto_TYPE_BYTES, "", fldOpts, false))
+	rawOpt := func(m proto.Message, recs ...[]byte) {
+		var b []byte
+		for _, r := range recs {
+			b = append(b, r...)
+		}
+		m.ProtoReflect().SetUnknown(b)
+	}
+	strRec := func(num int32, v string) []byte {
+		return protowire.AppendString(protowire.AppendTag(nil, protowire.Number(num), protowire.BytesType), v)
+	}
+	varRec := func(num int32, v uint64) []byte {
+		return protowire.AppendVarint(protowire.AppendTag(nil, protowire.Number(num), protowire.VarintType), v)
+	}
+	sec.P.Options = &descriptorpb.MessageOptions{}
+	rawOpt(sec.P.Options, strRec(51001, "first"), strRec(51003, "second"), varRec(51007, 5))
+	sec.P.Field[0].Options = &descriptorpb.FieldOptions{}
+	rawOpt(sec.P.Field[0].Options, varRec(51002, 7), strRec(51008, "nested"))
 
 	// --- main file
 	f := NewFile("mx/mx.proto", "mx", GenRoot+"mx", "mxo/other.proto", "mx/mx2.proto",
